@@ -54,6 +54,31 @@ impl PathBuf {
     /// `Path::parent`
     #[verifier::external_body]
     pub fn parent(&self) -> (r: Option<&Path>) { unimplemented!() }
+    /// `PathBuf::as_path` (std/src/path.rs): the same path
+    #[verifier::external_body]
+    pub fn as_path(&self) -> (r: &Path) ensures r@ == self@, { unimplemented!() }
+    /// `Path::to_path_buf` through deref: a copy of the path
+    #[verifier::external_body]
+    pub fn to_path_buf(&self) -> (r: PathBuf) ensures r@ == self@, { unimplemented!() }
+    /// `Path::join` (std/src/path.rs) — the text of the joined path is left unspecified
+    #[verifier::external_body]
+    pub fn join<P: PathLike>(&self, p: P) -> (r: PathBuf) { unimplemented!() }
+}
+impl Clone for PathBuf {
+    /// `impl Clone for PathBuf`: a copy of the path
+    #[verifier::external_body]
+    fn clone(&self) -> (r: PathBuf) ensures r@ == self@, { unimplemented!() }
+}
+impl Path {
+    /// `Path::parent`
+    #[verifier::external_body]
+    pub fn parent(&self) -> (r: Option<&Path>) { unimplemented!() }
+    /// `Path::to_path_buf`: a copy of the path
+    #[verifier::external_body]
+    pub fn to_path_buf(&self) -> (r: PathBuf) ensures r@ == self@, { unimplemented!() }
+    /// `Path::join` — the text of the joined path is left unspecified
+    #[verifier::external_body]
+    pub fn join<P: PathLike>(&self, p: P) -> (r: PathBuf) { unimplemented!() }
 }
 /// the location of the blob (folder, secret, name) below the account's files directory
 /// (crates/core/src/paths.rs:236 `into_file_path_parts`: `files_dir/<folder uuid>/<secret uuid>/<hex name>`)
@@ -256,6 +281,28 @@ impl<K: View, V> HashMap<K, V> {
     /// `HashMap::insert`
     #[verifier::external_body]
     pub fn insert(&mut self, k: K, v: V) -> (r: Option<V>) ensures final(self)@ == old(self)@.insert(k@, v), { unimplemented!() }
+    /// `HashMap::len` (std/src/collections/hash/map.rs): the number of entries
+    #[verifier::external_body]
+    pub fn len(&self) -> (r: usize) ensures r == self@.dom().len(), { unimplemented!() }
+    /// `HashMap::is_empty`
+    #[verifier::external_body]
+    pub fn is_empty(&self) -> (r: bool) ensures r == (self@ == Map::<K::V, V>::empty()), { unimplemented!() }
+    /// `HashMap::contains_key` (keys compared by `Eq`, here: by view)
+    #[verifier::external_body]
+    pub fn contains_key(&self, k: &K) -> (r: bool) ensures r == self@.contains_key(k@), { unimplemented!() }
+    /// `HashMap::get`
+    #[verifier::external_body]
+    pub fn get(&self, k: &K) -> (r: Option<&V>)
+        ensures r is Some <==> self@.contains_key(k@), r is Some ==> *r->Some_0 == self@[k@],
+    { unimplemented!() }
+    /// `HashMap::remove`
+    #[verifier::external_body]
+    pub fn remove(&mut self, k: &K) -> (r: Option<V>)
+        ensures final(self)@ == old(self)@.remove(k@), r is Some <==> old(self)@.contains_key(k@), r is Some ==> r->Some_0 == old(self)@[k@],
+    { unimplemented!() }
+    /// `HashMap::clear`
+    #[verifier::external_body]
+    pub fn clear(&mut self) ensures final(self)@ == Map::<K::V, V>::empty(), { unimplemented!() }
 }
 /// `std::collections::hash_map::IntoIter<K, V>`: every entry once, in an unspecified order
 #[verifier::external_body]
@@ -299,6 +346,31 @@ impl<K: View, V> IntoIterator for HashMap<K, V> {
 pub fn vmap_delete(events: Vec<FileEvent>) -> (r: Vec<FileMutationEvent>)
     ensures r@.len() == events@.len(), forall|i: int| 0 <= i < r@.len() ==> #[trigger] r@[i] == FileMutationEvent::Delete(events@[i]),
 { unimplemented!() }
+/// R12 `events.into_iter().map($f).collect()` into a `Vec` (core `Iterator::map` + `collect`): `f` applied to every element, in order;
+/// `f` stays the repository's text (the unit wraps it in a closure whose `ensures` is the specification)
+#[verifier::external_body]
+pub fn vmap_events<F: Fn(FileEvent) -> FileMutationEvent>(events: Vec<FileEvent>, f: F) -> (r: Vec<FileMutationEvent>)
+    requires forall|e: FileEvent| #[trigger] f.requires((e,)),
+    ensures r@.len() == events@.len(), forall|i: int| 0 <= i < r@.len() ==> f.ensures((events@[i],), #[trigger] r@[i]),
+{ unimplemented!() }
+/// `std::fs::ReadDir` (std/src/fs.rs): the iterator over the entries of a directory, `Item = io::Result<DirEntry>`; nothing is said
+/// about the entries (the pruning of empty directories is not part of the blob contract)
+#[verifier::external_body]
+pub struct ReadDir { _p: () }
+/// `std::fs::DirEntry` — opaque
+#[verifier::external_body]
+pub struct DirEntry { _p: () }
+impl ReadDir {
+    /// `Iterator::next` of `ReadDir`
+    #[verifier::external_body]
+    pub fn next(&mut self) -> (r: Option<core::result::Result<DirEntry, IoError>>) { unimplemented!() }
+    /// `Iterator::count`
+    #[verifier::external_body]
+    pub fn count(self) -> (r: usize) { unimplemented!() }
+}
+/// R12 `$p.read_dir()` (std `Path::read_dir` = `fs::read_dir`: Err unless `$p` is a readable directory).  Reads only.
+#[verifier::external_body]
+pub fn vread_dir(fs: &Fs, p: &PathBuf) -> (r: core::result::Result<ReadDir, IoError>) { unimplemented!() }
 /// `Option<T>::as_mut` (core/src/option.rs)
 #[verifier::external_body]
 pub fn opt_as_mut(o: &mut Option<ProgressSender>) -> (r: Option<&mut ProgressSender>) { unimplemented!() }
